@@ -35,7 +35,9 @@ RULE = ('base scripts: 1-4 (quick, all of them) / up to 8 (thorough, random) '
         'neither the first nor the last callback, or >=2 release cycles.'
         " Rounds 9-13 added: keyword payloads named like the dispatcher's"
         ' own parameters; injected exceptions of builtin types (IndexError,'
-        ' KeyError, StopIteration, ...).')
+        ' KeyError, StopIteration, ...).'
+        ' Round 14 added: a bystander dispatcher with pending events of its'
+        ' own.')
 ANCHORS = [
     'desper/events.py::EventDispatcher.dispatch',
     'desper/events.py::EventDispatcher.dispatch_enabled',
